@@ -625,10 +625,33 @@ type c19Script struct {
 	Steps []c19Cmd `json:"steps"`
 }
 
+// c19Run: a search of the replay.  Odd process numbers go through StreamSearch (held in the first
+// Send); even ones are the body of shardedSearcher.Search executed in three phases: snap =
+// getLoaded(), read = streamSearch() returned (results not yet copied, only the done closure
+// references the shards), finish = copyFiles + done().
 type c19Run struct {
 	snd  *c19Sender
 	done chan error
 	snap map[[2]uint64]bool
+
+	direct  bool
+	shards  []*rankedShard
+	proc    *process
+	collect *collectSender
+	doneF   func()
+	err     error
+}
+
+func (r *c19Run) read(e *c19Env) {
+	opts := &zoekt.SearchOptions{Whole: true}
+	ctx := context.Background()
+	r.proc, r.err = e.ss.sched.Acquire(ctx)
+	if r.err != nil {
+		return
+	}
+	r.collect = newCollectSender(opts)
+	r.doneF, r.err = streamSearch(ctx, r.proc, c19Query, opts, r.shards, r.collect)
+	r.shards = nil // from here on only the done closure keeps the shards alive
 }
 
 type c19Replay struct {
@@ -690,6 +713,17 @@ func (rp *c19Replay) step(t testing.TB, c c19Cmd) (res []c19M, bad, crashes int,
 		}
 		rp.scanPC = "idle"
 	case "snap":
+		if c.P%2 == 0 {
+			r := &c19Run{direct: true, snap: map[[2]uint64]bool{}}
+			rp.runs[c.P] = r
+			r.shards = e.ss.getLoaded().shards
+			maps := c19Maps(t)
+			for _, rs := range r.shards {
+				in := e.project(rs, maps)
+				r.snap[[2]uint64{uint64(in.Addr), in.Ino}] = true
+			}
+			break
+		}
 		r := &c19Run{snd: &c19Sender{at: make(chan struct{}), rel: make(chan struct{})}, done: make(chan error, 1)}
 		rp.runs[c.P] = r
 		go func() {
@@ -706,9 +740,39 @@ func (rp *c19Replay) step(t testing.TB, c c19Cmd) (res []c19M, bad, crashes int,
 			in := e.project(rs, maps)
 			r.snap[[2]uint64{uint64(in.Addr), in.Ino}] = true
 		}
+	case "read":
+		r := rp.runs[c.P]
+		if !r.direct {
+			t.Fatalf("c19: read on a StreamSearch process")
+		}
+		r.read(e)
 	case "finish":
 		r := rp.runs[c.P]
 		delete(rp.runs, c.P)
+		if r.direct {
+			if r.doneF == nil && r.err == nil {
+				r.read(e)
+			}
+			if r.err != nil {
+				note = "search error: " + r.err.Error()
+				if r.doneF != nil {
+					r.doneF()
+				}
+				break
+			}
+			var hits []c19Hit
+			if agg, ok := r.collect.Done(); ok {
+				copyFiles(agg)
+				for _, f := range agg.Files {
+					hits = append(hits, c19Hit{f.Repository, string(f.Content)})
+				}
+				crashes = agg.Stats.Crashes
+			}
+			r.doneF()
+			r.proc.Release()
+			res, bad = c19Result(hits)
+			break
+		}
 		r.snd.rel <- struct{}{}
 		select {
 		case err := <-r.done:
@@ -757,7 +821,7 @@ func c19RunScript(t testing.TB, tr *c19Trace, base string, k int, sc c19Script) 
 		c := steps[i]
 		// never let a search run into a mapping that is already gone: that would kill the
 		// process; the unmapped instance is reported by this step's observation instead
-		if c.C == "finish" {
+		if c.C == "finish" || c.C == "read" {
 			if held := rp.heldUnmapped(c.P); held {
 				tr.Emit(c19M{"ev": "abort", "k": k, "i": i, "why": "snapshot-unmapped"})
 				return // the blocked search goroutine is abandoned
